@@ -164,25 +164,31 @@ func pkgBase(level string) string { return lvDir(level) + "/gen" }
 // lvDir is the directory of a level inside a scratch module (main program + gen/).
 func lvDir(level string) string { return "l" + strings.ReplaceAll(level, "+protoopaque", "po") }
 
-// assign gives file i the Go package <module>/l<level>/gen/p<i> (one package per file).
-func assign(files []*descriptorpb.FileDescriptorProto, level string) {
-	gencode.AssignGoPackages(files, modPath+"/"+pkgBase(level), true)
+// assign gives file i the Go package <module>/<base>/p<i> (one package per file).
+func assign(files []*descriptorpb.FileDescriptorProto, base string) {
+	gencode.AssignGoPackages(files, modPath+"/"+base, true)
 }
 
 type generated struct {
+	base  string                              // directory of the packages inside the module (<base>/p<i>)
 	files []*descriptorpb.FileDescriptorProto // with go_package assigned: exactly what the generator saw
 	out   map[string]string                   // path relative to the module root -> content
 	names []string                            // in response order
 	pkgOf map[string]int                      // generated file -> index of its schema file
 }
 
-// generate runs the tree's protoc-gen-go in process (check 1: no error).
+// generate runs the tree's protoc-gen-go in process (check 1: no error); the packages of the set are
+// <module>/l<level>/gen/p<i>.
 func generate(files []*descriptorpb.FileDescriptorProto, level string) (*generated, error) {
-	g := &generated{pkgOf: map[string]int{}}
+	return generateAt(files, level, pkgBase(level))
+}
+
+func generateAt(files []*descriptorpb.FileDescriptorProto, level, base string) (*generated, error) {
+	g := &generated{base: base, pkgOf: map[string]int{}}
 	for _, f := range files {
 		g.files = append(g.files, proto.Clone(f).(*descriptorpb.FileDescriptorProto))
 	}
-	assign(g.files, level)
+	assign(g.files, base)
 	req, err := gencode.Request(g.files, nil, gencode.JoinParams(apiParam(level), "module="+modPath))
 	if err != nil {
 		return nil, fmt.Errorf("harness: %v", err)
@@ -201,7 +207,7 @@ func generate(files []*descriptorpb.FileDescriptorProto, level string) (*generat
 	}
 	want := map[string]bool{}
 	for i := range g.files {
-		want[fmt.Sprintf("%s/p%d/", pkgBase(level), i)] = false
+		want[fmt.Sprintf("%s/p%d/", base, i)] = false
 	}
 	for _, n := range g.names {
 		dir := n[:strings.LastIndex(n, "/")+1]
@@ -209,7 +215,7 @@ func generate(files []*descriptorpb.FileDescriptorProto, level string) (*generat
 			return nil, fmt.Errorf("protoc-gen-go emits %s, which is in no requested Go package", n)
 		}
 		var i int
-		fmt.Sscanf(strings.TrimPrefix(dir, pkgBase(level)+"/p"), "%d", &i)
+		fmt.Sscanf(strings.TrimPrefix(dir, base+"/p"), "%d", &i)
 		g.pkgOf[n] = i
 		if !strings.HasSuffix(n, "_protoopaque.pb.go") {
 			want[dir] = true
@@ -411,9 +417,9 @@ import (
 func main() { c41run.Main() }
 `
 
-// writeLevel writes the generated packages of one level and the main program that links them into
-// the module at dir. keep selects the schema files whose packages are linked (nil: all).
-func writeLevel(dir string, g *generated, level string, keep map[int]bool) error {
+// writeUnit writes the generated packages of one unit (a schema set at one level) into the module at
+// dir; keep selects the schema files whose packages are written and linked.
+func writeUnit(dir string, g *generated, keep map[int]bool) error {
 	for n, src := range g.out {
 		if keep != nil && !keep[g.pkgOf[n]] {
 			continue
@@ -426,24 +432,28 @@ func writeLevel(dir string, g *generated, level string, keep map[int]bool) error
 			return err
 		}
 	}
+	return nil
+}
+
+// writeMain writes the main program <dir>/<name>/main.go that links the given packages.
+func writeMain(dir, name string, imports []string) error {
 	var imps strings.Builder
-	for i := range g.files {
-		if keep == nil || keep[i] {
-			fmt.Fprintf(&imps, "\t_ %q\n", gencode.GoImportPathOf(g.files[i]))
-		}
+	for _, p := range imports {
+		fmt.Fprintf(&imps, "\t_ %q\n", p)
 	}
-	mdir := filepath.Join(dir, lvDir(level))
+	mdir := filepath.Join(dir, name)
 	if err := os.MkdirAll(mdir, 0o755); err != nil {
 		return err
 	}
 	return os.WriteFile(filepath.Join(mdir, "main.go"), []byte(fmt.Sprintf(mainSrc, imps.String())), 0o644)
 }
 
-var buildErrLine = regexp.MustCompile(`^(?:\./)?(l[a-z]+/gen/p(\d+)/[^:]+):(\d+:\d+): (.*)$`)
+var buildErrLine = regexp.MustCompile(`^(?:\./)?((u\d+)/p(\d+)/[^:]+):(\d+:\d+): (.*)$`)
 
-// buildError is one compiler diagnostic attributed to a schema file.
+// buildError is one compiler diagnostic attributed to a unit and a schema file.
 type buildError struct {
 	File string
+	Unit string // unit directory
 	Pkg  int
 	Pos  string
 	Msg  string
@@ -454,31 +464,21 @@ func parseBuildErrors(out []byte) []buildError {
 	for _, l := range strings.Split(string(out), "\n") {
 		if m := buildErrLine.FindStringSubmatch(strings.TrimSpace(l)); m != nil {
 			var i int
-			fmt.Sscanf(m[2], "%d", &i)
-			errs = append(errs, buildError{File: m[1], Pkg: i, Pos: m[3], Msg: m[4]})
+			fmt.Sscanf(m[3], "%d", &i)
+			errs = append(errs, buildError{File: m[1], Unit: m[2], Pkg: i, Pos: m[4], Msg: m[5]})
 		}
 	}
 	return errs
 }
 
-// goBuild compiles and links the main programs of the given levels of the module at dir into
-// dir/bin/<level>. All levels must share the build tags.
-func goBuild(dir string, lvls []string) ([]byte, error) {
-	args := []string{"build", "-p", buildJobs()}
-	if t := goTags(lvls[0]); t != "" {
-		args = append(args, "-tags", t)
+// goBuild compiles and links main program <dir>/<name> into <dir>/<name>.bin.
+func goBuild(dir, name, tags string) ([]byte, error) {
+	args := []string{"build", "-p", buildJobs(), "-ldflags=-s -w"}
+	if tags != "" {
+		args = append(args, "-tags", tags)
 	}
-	bin := filepath.Join(dir, "bin"+goTags(lvls[0]))
-	os.MkdirAll(bin, 0o755)
-	args = append(args, "-o", bin+"/")
-	for _, l := range lvls {
-		args = append(args, "./"+lvDir(l))
-	}
+	args = append(args, "-o", filepath.Join(dir, name+".bin"), "./"+name)
 	return runGo(dir, args...)
-}
-
-func binPath(dir, level string) string {
-	return filepath.Join(dir, "bin"+goTags(level), lvDir(level))
 }
 
 // ---------------------------------------------------------------------------------------------
